@@ -251,6 +251,12 @@ impl<'tcx> Cx<'tcx> {
                 }
             }
             ty::ConstKind::Unevaluated(uv) => {
+                // anonymous / named constants without generic arguments can be evaluated right away
+                if uv.args.is_empty() {
+                    if let Ok(ConstValue::Scalar(Scalar::Int(si))) = self.tcx.const_eval_poly(uv.def) {
+                        return obj! {"k" => jstr("const"), "val" => jnum(si.to_bits_unchecked()), "s" => jstr(format!("{}", c))};
+                    }
+                }
                 obj! {"k" => jstr("cuneval"), "def" => jstr(self.path(uv.def)), "args" => self.gargs(uv.args), "s" => jstr(format!("{}", c))}
             }
             _ => obj! {"k" => jstr("cother"), "s" => jstr(format!("{}", c))},
